@@ -68,6 +68,33 @@ def _builders(core):
     return out
 
 
+def _is_closed_kernel(core):
+    """SubscriptionSink::is_closed(): closed <=> the connection is gone OR this subscription was unsubscribed (what 'the handler's sink reports closed' means; the three send
+    flavours consult it)"""
+    b = R.find_body(core, S + r"is_closed\(_1: &subscription::SubscriptionSink\)")
+    conn, unsub = z3.Bool("connection.closed"), z3.Bool("subscription.unsubscribed")
+    models = [(r"^MethodSink::is_closed$", lambda ex, st, c, a, d, s_: conn),
+              (r"IsUnsubscribed::is_unsubscribed$", lambda ex, st, c, a, d, s_: unsub)] + list(M.TRACING_MODELS)
+    ctx = P.make_ctx(core, extra_models=models, max_paths=200)
+    ctx.inline = [M.crate_inliner(core)]
+    ex = Executor(ctx)
+    ps = ex.run(b)
+    bad = [(p.kind, p.detail) for p in ps if p.kind != "return"]
+    viol, reach = [], {"closed": [], "open": []}
+    for p in ps:
+        if p.kind != "return":
+            continue
+        r = ex.read_node(p.ret) if isinstance(p.ret, Node) else p.ret
+        if not isinstance(r, z3.BoolRef):
+            r = ex.as_bv(r) != 0
+        pc = p.cond()
+        want = z3.Or(conn, unsub)
+        viol.append(z3.And(pc, r != want))
+        reach["closed"].append(z3.And(pc, want))
+        reach["open"].append(z3.And(pc, z3.Not(want)))
+    return b, viol, reach, bad
+
+
 def _send_flavour(core, which):
     """SubscriptionSink::{send, send_timeout, try_send}: closed => Err and nothing queued; else the notification built from this sink's own
     subscription id and method is handed to the connection queue (exactly once)"""
@@ -356,6 +383,10 @@ def obligations(tier, seed):
     for fn, b, viol, reach, bad in _builders(core):
         emit(f"prov:{fn}", "provenance", b, viol, reach, bad, f"{fn} builds the notification from exactly the subscription id and method name it is given (a message pre-built by the handler is passed through)",
              "every path", "builder:" + fn)
+    b, viol, reach, bad = _is_closed_kernel(core)
+    emit("kernel:SubscriptionSink::is_closed", "kernel", b, viol, reach, bad,
+         "the sink reports closed exactly when its connection is gone or its subscription was unsubscribed - either alone suffices",
+         "connection closed x unsubscribed", "is-closed")
     for which in ("send", "send_timeout", "try_send"):
         b, viol, reach, bad = _send_flavour(core, which)
         emit(f"order:SubscriptionSink::{which}", "order", b, viol, reach, bad,
